@@ -160,6 +160,7 @@ def shards(tier: str, seed: int):
     out.append(["api"])
     out.append(["samehost"])
     out.append(["bigvalues"])
+    out.append(["faults"])
     for part in range(8):
         out.append(["pairs", part])
     if tier == "thorough":
@@ -171,8 +172,74 @@ def shards(tier: str, seed: int):
 PW = [(p, w) for p in range(3) for w in range(3)]
 
 
+FAULTS = ["NXDOMAIN", "NoAnswer", "LifetimeTimeout", "NoNameservers"]
+
+
+def failing_lookup(fault: str, domain, flavour: str):
+    """one lookup whose resolver call raises; -> (queries made, exception or None)"""
+    import dns.asyncresolver
+    import dns.resolver
+
+    from dpapi_ng import _dns as D
+
+    queries: t.List[str] = []
+
+    def boom(qname, *a, **kw):
+        queries.append(str(qname))
+        raise getattr(dns.resolver, fault)()
+
+    async def aboom(qname, *a, **kw):
+        return boom(qname)
+
+    try:
+        with seams.patched(dns.resolver, "resolve", boom), seams.patched(dns.asyncresolver, "resolve", aboom):
+            if flavour == "sync":
+                D.lookup_dc(domain)
+            else:
+                co = D.async_lookup_dc(domain)
+                try:
+                    co.send(None)
+                except StopIteration:
+                    pass
+        return queries, None
+    except Exception as e:  # noqa: BLE001
+        return queries, e
+
+
 def run_shard(shard, tier, seed, acc) -> None:
     seams.block_network()
+    import socket as _socket
+
+    # the host's own names are part of the environment: owned, so that a fallback which consults them behaves the same everywhere
+    _socket.getfqdn = lambda *a: "build7.compute.internal"  # type: ignore[assignment]
+    _socket.gethostname = lambda: "build7"  # type: ignore[assignment]
+    if shard[0] == "faults":
+        # a resolver failure surfaces as an error, asks only the right name, and leaves nothing behind: later lookups are judged as usual
+        n = 0
+        small = [((0, 0),), ((0, 1), (1, 2)), ((1, 0), (0, 2), (0, 1))]
+        for fault in FAULTS:
+            for fdom in (None, "", "domain.test", "other.example"):
+                for flavour in ("sync", "async"):
+                    q, e = failing_lookup(fault, fdom, flavour)
+                    case = ["fault", fault, fdom, flavour]
+                    n += 1
+                    expq = "_ldap._tcp.dc._msdcs" + (f".{fdom}" if fdom else "")
+                    if e is None:
+                        acc.violate("fault.swallowed", case, {"queries": q})
+                    if any(x.rstrip(".") != expq for x in q):
+                        acc.violate("fault.other-name-queried", case, {"queries": q, "expected": expq})
+                    for pw in small:
+                        for dom in (None, "domain.test", fdom):
+                            before = acc.violation_count
+                            judge(acc, pw, dom, 0)
+                            n += 1
+                            if acc.violation_count != before:
+                                acc.violate("after-fault", ["after-fault", fault, fdom, flavour, [list(x) for x in pw], dom], {"note": "a lookup after a failed one is judged wrong (see the accompanying violation)"})
+        acc.ev(n)
+        acc.nt_counted(n)
+        acc.outcome("fault-histories-judged", n)
+        acc.sample({"resolver faults": FAULTS, "then": "ordinary lookups of the same / another / no domain"})
+        return
     if shard[0] in ("lists", "lists65535"):
         _, k, first = shard
         n = 0
@@ -274,6 +341,9 @@ def run_shard(shard, tier, seed, acc) -> None:
 def replay(case, seed, acc) -> None:
     seams.block_network()
     acc.ev()
+    if case[0] in ("fault", "after-fault"):
+        run_shard(["faults"], "quick", seed, acc)
+        return
     if case[0] == "list":
         hist = case[4] if len(case) > 4 else []
         for h in hist:
